@@ -4,6 +4,7 @@ import json
 import os
 import subprocess
 import sys
+import time
 
 import vv
 import prims_common as pc
@@ -25,8 +26,18 @@ ASSUMPTIONS = ["H_17digits (Section hypothesis of coq/Serial/SerialProofs.v): fo
 
 
 def build():
-    vv.build_lib("asan")
-    harness = vv.build_harness("h_serial")
+    # other checks running at the same time may garbage-collect the source
+    # snapshot between its creation and the compilation (vv._gc keeps 3): a
+    # missing snapshot file is retried, any other build error is final
+    for attempt in range(4):
+        try:
+            vv.build_lib("asan")
+            harness = vv.build_harness("h_serial")
+            break
+        except vv.BuildError as e:
+            if attempt == 3 or "No such file or directory" not in str(e) or "/.build/src-" not in str(e) and "kernel/vita.h" not in str(e):
+                raise
+            time.sleep(1 + attempt)
     model = vv.ocaml_model("Serial")
     return harness, model
 
